@@ -679,13 +679,17 @@ func outcomeErrClassC04(o string) string {
 
 func init() {
 	props["C04"] = func(x *Ctx) {
-		x.rule = "each case: fresh server (accounts by1, by2, alice [1..72-byte password], root [all privileges], guest present in 80% [sometimes with a password], in 60% an account \"legacy\" whose hand-written file holds a Password that is not a bcrypt hash [empty, plaintext, truncated, unknown version/cost]); in 18% an administrator first renames alice through the real HandleUpdateUser (password kept / changed / removed) and the OLD login is then tried; in 15% of the not-to-be-logged-in cases every Write after the 8-byte handshake reply fails while login and requests arrive in one segment; two bystanders logged in over the wire; a pre-login stream = handshake (valid / other version / one bit off in the ids / one bit off in the version / short / random) + first transaction (login alice|root|empty=guest|unknown or case-changed login; password correct / random / strict prefix / extended / case-changed / empty / absent / one bit off / another account's; type 107 or other; 8% byte-mutated) + 0..5 destructive transactions (delete file/folder, new account, board post, chat, new folder, delete account, broadcast, disconnect+ban, news category, instant message); 3% from a banned address. non-trivial = valid handshake, not banned, first transaction present (the credential check decides); distinct = distinct (stream, credential kind, guest present)"
+		x.rule = "each case: fresh server (accounts by1, by2, alice [1..72-byte password], root [all privileges], guest present in 80% [sometimes with a password], in 60% an account \"legacy\" whose hand-written file holds a Password that is not a bcrypt hash [empty, plaintext, truncated, unknown version/cost]); in 18% an administrator first renames alice through the real HandleUpdateUser (password kept / changed / removed) and the OLD login is then tried; in 15% of the not-to-be-logged-in cases every Write after the 8-byte handshake reply fails while login and requests arrive in one segment; two bystanders logged in over the wire; a pre-login stream = handshake (valid / other version / one bit off in the ids / one bit off in the version / short / random) + first transaction (login alice|root|empty=guest|unknown or case-changed login; password correct / random / strict prefix / extended / case-changed / empty / absent / one bit off / another account's; type 107 or other; 8% byte-mutated) + 0..5 destructive transactions (delete file/folder, new account, board post, chat, new folder, delete account, broadcast, disconnect+ban, news category, instant message); 3% from a banned address. non-trivial = valid handshake, not banned, first transaction present (the credential check decides); distinct = distinct (stream, credential kind, guest present). batch-edit-login: fresh server with accounts alice/bob/carol/dave (random 1..30-byte passwords); an administrator sends ONE TranUpdateUser over the wire with 1..5 records drawn from password change / keep ({0}) / password removal / deletion / creation (erin, frank) / rename (password kept, changed, removed) — 4% of the batches contain a record that must stop the handler (deletion of an absent account, rename onto an existing login) —, sub-fields of every record shuffled; then up to 7 connections present, for the accounts the batch names, the password the last edit set, the password held before the batch, a password another record of the same batch set, or nothing (plus an untouched account); verdict by the property's condition (exists now and password = current password) for acknowledged batches, table and decisions compared with LoginHistory.applyBatch / Session.run; distinct = distinct (records, wire bytes). ban-reload-gate: bans entered through BanFile.Add (permanent / until +1..5 h / expired), the operator's new list (some entries kept, some dropped, some added) served through a FIFO in place of Banlist.yaml so that the reload sequence (message board, BanFile.Load, threaded news, agreement) waits inside the file read; connections with valid guest credentials from kept / dropped / added / never-listed addresses arrive while it waits and again after it finished; verdict: an address refused before and after is never served, after the reload the gate follows the new list exactly; decisions compared with BanReload.run"
 		x.assume = []string{
 			"bcrypt: verify(hash(p), q) iff p = q for passwords of at most 72 bytes without NUL bytes (the oracle's verify is equality on the stored password bytes)",
 			"for a stream expected to log in, the bytes after the login are delivered once the login's own transactions were written (the server drops queued replies when the connection ends)",
 			"bystander inboxes are read after a keep-alive round trip on each bystander (everything queued earlier on the outbox has been handed to its writer by then)",
+			"batched edits: the editing administrator holds every account privilege; logins are legal file names; the direct verdict is taken for batches the server acknowledged",
+			"ban reload: Banlist.yaml decodes (an undecodable file leaves the list empty and Load only reports an error); the 40..100 ms the harness lets connections run before it releases the file read decide only whether the overlap is exercised, never a verdict",
 		}
 		x.Add(&Family{Name: "unauth-gate", Quick: 2600, Thor: 30000, Run: c04Family})
+		x.Add(&Family{Name: "batch-edit-login", Quick: 260, Thor: 4000, Run: c04BatchEditFamily})
+		x.Add(&Family{Name: "ban-reload-gate", Quick: 60, Thor: 600, Run: c04BanReloadFamily})
 	}
 }
 
